@@ -6,6 +6,7 @@ import (
 	"fmt"
 	"go/token"
 	"go/types"
+	"reflect"
 	"strings"
 
 	"golang.org/x/tools/go/ssa"
@@ -606,6 +607,10 @@ func (r *Run) callBuiltin(caller *frame, callpos token.Pos, fn *ssa.Builtin, arg
 			}
 			return n
 		case nativeV:
+			if sn, ok := args[1].(nativeV); ok && sn.rv.Kind() == reflect.Slice && sn.rv.Type() == dst.rv.Type() {
+				// both native: the run-time's own copy (memmove semantics for overlapping slices)
+				return reflect.Copy(dst.rv, sn.rv)
+			}
 			n := dst.rv.Len()
 			if len(src) < n {
 				n = len(src)
